@@ -13,7 +13,8 @@ EXPLANATION = (
     "the next row id. Thorough tier also analyses --features no-flush (Drop impl must be absent there, by design).")
 NOT_DECIDED = "byte-for-byte equality of contents after many close/open cycles"
 ASSUMPTIONS = []
-FEATURE_CONFIGS = ["no-flush"]
+# obligations whose verdict legitimately differs under a feature (evaluated there by C09.6 instead)
+CONFIG_DEPENDENT = {"no-flush": ["C09.1:drop-impl", "C09.1:drop-reaches-checkpoint", "C09.1:floor"]}
 
 HDR = "storage::page::PageZeroHeader"
 CACHE = "io::cache::PageCache"
